@@ -579,8 +579,9 @@ def run(rep, tier):
         rep.saw(g, len(g.events))
         hist = g.calls_named(hist_rx)
         adm = g.calls_named(r"Context.*::admit$")
-        if not hist or not adm:
-            raise CheckerFault("anchor missing: historical load / admit in Context::%s" % fname)
+        if not hist:
+            raise CheckerFault("anchor missing: historical load in Context::%s" % fname)
+        # (no admit call at all after the historical load is a violation, not a missing anchor: `late_adm` is then empty)
         present = [e for e in g.calls_named(r"Store>?::get_element$") if any(g.dominates(h.block, e.block) and h.block != e.block for h in hist)]
         # (the probe may sit in a small helper that was made transparent: position, not data flow, ties the decision to the fetch)
         judged = [m_ for m_ in g.calls_named(r"EffectiveAuthority::may_read$") if any(g.dominates(pr.block, m_.block) for pr in present)]
